@@ -74,6 +74,56 @@ def collect(tier, seed, res, oracles):
     return terms, keep
 
 
+def _slow_square(x):
+    import time
+    time.sleep(0.25)
+    return x * x
+
+
+def graceful_close_probe(res, tier):
+    """outside the scripted model: a REAL pool in which a worker is closed gracefully (worker.close() from the worker
+    callback) while it still has an accepted input to answer (extra pending 1).  It refuses further input but is not
+    dead: the run must still end with exactly one result per input, or PoolError - never an internal error."""
+    import collections
+    import threading
+    from pyworkers.pool import Pool, PoolError
+    from pyworkers.worker import WorkerType
+    kinds = [WorkerType.THREAD] if tier == 'quick' else [WorkerType.THREAD, WorkerType.PROCESS]
+    for kind in kinds:
+        for n in (6, 7):
+            closed, outcome = [], {}
+
+            def callback(worker, event, *rest):
+                if event == 'finished' and worker.userid == 0 and not closed:
+                    closed.append(True)
+                    worker.close()
+
+            def body():
+                p = Pool(_slow_square, name='probe pool')
+                try:
+                    with p:
+                        for i in range(2):
+                            p.add_worker(kind, name=f'w{i}', userid=i)
+                        outcome['results'] = p.run(iter(range(n)), worker_callback=callback, worker_extra_pending_inputs=1)
+                except PoolError:
+                    outcome['poolerror'] = True
+                except BaseException as e:   # noqa
+                    outcome['error'] = f'{type(e).__name__}: {e}'
+            t = threading.Thread(target=body, daemon=True)
+            t.start(); t.join(60)
+            res.count('real-pool:graceful-close:' + kind.name); res.case(('graceful-close', kind.name, n), nontrivial=True)
+            why = None
+            if t.is_alive():
+                why = 'Pool.run did not finish within 60 s'
+            elif 'error' in outcome:
+                why = f'Pool.run ended with an internal error: {outcome["error"]}'
+            elif 'results' in outcome and collections.Counter(outcome['results']) != collections.Counter(x * x for x in range(n)):
+                why = f'Pool.run returned {sorted(outcome["results"])} for inputs 0..{n - 1}: not exactly one result per input'
+            if why:
+                res.violation(dict(real_pool=kind.name, scenario='worker 0 closed gracefully from the callback of its first result, extra pending 1', inputs=n, domain=None), why,
+                              finding_matcher=known_matcher)
+
+
 def main(tier, seed, replay=None, prop=PROP, oracles=(pc.oracle_c07,), props_file=None, proofs=None):
     res = core.Result(prop, tier, seed)
     res.rule = ('corpus of minimised failing schedules; every schedule (up to commuting environment steps) of the listed small '
@@ -83,7 +133,7 @@ def main(tier, seed, replay=None, prop=PROP, oracles=(pc.oracle_c07,), props_fil
                 'non-trivial = at least one death or refusal; distinct = distinct (configuration, script).')
     res.assumptions = ['fake persistent workers observe the Worker API contract: enqueue raises iff the process is gone; results, end marker, EOF arrive in FIFO order on a real pipe',
                        'a worker that neither answers nor dies is outside the property (the run is cut off as "blocked")',
-                       'workers are not closed by the user while run() is in progress; no worker sends a bare None message']
+                       'in the scripted model workers are not closed by the user while run() is in progress (a real-pool probe covers the graceful close of a busy worker); no worker sends a bare None message']
     res.trusted.append('hand-written model Pool/Model.v (tied to pool.py by differential execution only) and harness/sched_pool.py')
     core.prove(res, prop, [], proofs or PROOFS, props_file=props_file, run_files=['theories/Pool/Run.v'])
     import sys
@@ -97,6 +147,8 @@ def main(tier, seed, replay=None, prop=PROP, oracles=(pc.oracle_c07,), props_fil
             print('oracle:', orc(c, out, d))
         return 0
     terms, keep = collect(tier, seed, res, oracles)
+    if prop == 'C07':
+        graceful_close_probe(res, tier)
     bad, err = core.coq_eval_cases(prop, HEADER, terms, per_file=400)
     res.traces_validated = len(terms) - len(bad)
     if err:
